@@ -38,6 +38,7 @@ type caseT struct {
 	Clean       map[string]bool      `json:"clean_per_category,omitempty"`
 	Changed     map[string][2]string `json:"changed_files_old_new,omitempty"`
 	ImageOrder  [][]string           `json:"image_file_order_old_new,omitempty"`
+	Imports     string               `json:"import_configuration,omitempty"`
 }
 
 func changed(oldR, newR *c03.Rendered) map[string][2]string {
@@ -68,10 +69,35 @@ func (x *runner) add(key string, n int) {
 	x.mu.Unlock()
 }
 
+// mode is how a comparison is run: by default through Engine.Breaking (imports excluded, all files targets);
+// the import configurations (imports.go) run with their own call and label.
+type mode struct {
+	label    string // "" = default
+	breaking func(c c03.Config, newImg, oldImg bufimage.Image) ([]bufx.Annotation, error)
+}
+
+func (x *runner) call(m *mode, c c03.Config, newImg, oldImg bufimage.Image) ([]bufx.Annotation, error) {
+	if m == nil || m.breaking == nil {
+		return x.eng.Breaking(c, newImg, oldImg)
+	}
+	return m.breaking(c, newImg, oldImg)
+}
+
+func (m *mode) String() string {
+	if m == nil {
+		return ""
+	}
+	return m.label
+}
+
 // silent demands zero annotations for new vs old under every config.
 func (x *runner) silent(kind, opSig, pair string, oldR, newR *c03.Rendered, oldImg, newImg bufimage.Image, cfgs []c03.Config) {
+	x.silentIn(nil, kind, opSig, pair, oldR, newR, oldImg, newImg, cfgs)
+}
+
+func (x *runner) silentIn(m *mode, kind, opSig, pair string, oldR, newR *c03.Rendered, oldImg, newImg bufimage.Image, cfgs []c03.Config) {
 	for _, c := range cfgs {
-		anns, err := x.eng.Breaking(c, newImg, oldImg)
+		anns, err := x.call(m, c, newImg, oldImg)
 		x.r.Eval(1)
 		if err != nil {
 			if strings.HasPrefix(err.Error(), "config ") {
@@ -79,7 +105,7 @@ func (x *runner) silent(kind, opSig, pair string, oldR, newR *c03.Rendered, oldI
 				continue
 			}
 			x.r.Violate("compatible-error/"+kind+"/"+opSig, fmt.Sprintf("%s %s under %s: Breaking failed: %v", kind, pair, c, err),
-				caseT{Kind: kind, Pair: pair, Config: c.String(), Changed: changed(oldR, newR)})
+				caseT{Kind: kind, Pair: pair, Config: c.String(), Changed: changed(oldR, newR), Imports: m.String()})
 			continue
 		}
 		// one signature per rule that spoke up (the chain / style that exposed it is in the case, not in the signature)
@@ -91,7 +117,7 @@ func (x *runner) silent(kind, opSig, pair string, oldR, newR *c03.Rendered, oldI
 			seen[a.Type] = true
 			x.r.Violate("compatible-reported/"+kind+"/"+a.Type,
 				fmt.Sprintf("%s %s under %s: %d annotation(s) for a compatible change (edit: %s), first of this rule: %q", kind, pair, c, len(anns), opSig, a.Message),
-				caseT{Kind: kind, Pair: pair, Config: c.String(), Annotations: anns, Changed: changed(oldR, newR)})
+				caseT{Kind: kind, Pair: pair, Config: c.String(), Annotations: anns, Changed: changed(oldR, newR), Imports: m.String()})
 		}
 	}
 	x.add("silent_pairs_"+kind, 1)
@@ -99,20 +125,25 @@ func (x *runner) silent(kind, opSig, pair string, oldR, newR *c03.Rendered, oldI
 
 // hierarchy checks clean(FILE) => clean(PACKAGE) => clean(WIRE_JSON) => clean(WIRE) for each version.
 func (x *runner) hierarchy(kind, opSig, pair string, oldR, newR *c03.Rendered, oldImg, newImg bufimage.Image, versions []string) {
+	x.hierarchyIn(nil, "hierarchy", kind, opSig, pair, oldR, newR, oldImg, newImg, versions)
+}
+
+// hierarchyIn: sigPrefix is "hierarchy" for the default mode; the import configurations use their own prefix.
+func (x *runner) hierarchyIn(m *mode, sigPrefix, kind, opSig, pair string, oldR, newR *c03.Rendered, oldImg, newImg bufimage.Image, versions []string) {
 	for _, v := range versions {
 		clean := map[string]bool{}
 		byCat := map[string][]bufx.Annotation{}
 		ok := true
 		for _, cat := range c03.Categories {
 			c := c03.Config{Version: v, Use: cat}
-			anns, err := x.eng.Breaking(c, newImg, oldImg)
+			anns, err := x.call(m, c, newImg, oldImg)
 			x.r.Eval(1)
 			if err != nil {
 				if strings.HasPrefix(err.Error(), "config ") {
 					x.r.Incomplete("harness: " + err.Error())
 				} else {
-					x.r.Violate("hierarchy-error/"+opSig, fmt.Sprintf("%s %s under %s: Breaking failed: %v", kind, pair, c, err),
-						caseT{Kind: kind, Pair: pair, Config: c.String(), Changed: changed(oldR, newR)})
+					x.r.Violate(sigPrefix+"-error/"+opSig, fmt.Sprintf("%s %s under %s: Breaking failed: %v", kind, pair, c, err),
+						caseT{Kind: kind, Pair: pair, Config: c.String(), Changed: changed(oldR, newR), Imports: m.String()})
 				}
 				ok = false
 				break
@@ -131,11 +162,11 @@ func (x *runner) hierarchy(kind, opSig, pair string, oldR, newR *c03.Rendered, o
 				pattern += "D"
 			}
 		}
-		x.add("hierarchy_pattern_"+pattern, 1)
+		x.add(sigPrefix+"_pattern_"+pattern, 1)
 		for i := 0; i+1 < len(c03.Categories); i++ {
 			strict, lax := c03.Categories[i], c03.Categories[i+1]
 			if clean[strict] {
-				x.add("hierarchy_antecedent_true_"+strict, 1)
+				x.add(sigPrefix+"_antecedent_true_"+strict, 1)
 			}
 			if clean[strict] && !clean[lax] {
 				seen := map[string]bool{}
@@ -144,14 +175,14 @@ func (x *runner) hierarchy(kind, opSig, pair string, oldR, newR *c03.Rendered, o
 						continue
 					}
 					seen[a.Type] = true
-					x.r.Violate("hierarchy/"+v+"/"+strict+"-clean-but-"+lax+"-reports/"+a.Type,
+					x.r.Violate(sigPrefix+"/"+v+"/"+strict+"-clean-but-"+lax+"-reports/"+a.Type,
 						fmt.Sprintf("%s %s (%s), %s: clean under %s but %s reports %d annotation(s), first of this rule: %q", kind, pair, opSig, v, strict, lax, len(byCat[lax]), a.Message),
-						caseT{Kind: kind, Pair: pair, Config: v + "/" + lax, Annotations: byCat[lax], Clean: clean, Changed: changed(oldR, newR)})
+						caseT{Kind: kind, Pair: pair, Config: v + "/" + lax, Annotations: byCat[lax], Clean: clean, Changed: changed(oldR, newR), Imports: m.String()})
 				}
 			}
 		}
 	}
-	x.add("hierarchy_pairs_"+kind, 1)
+	x.add(sigPrefix+"_pairs_"+kind, 1)
 }
 
 // styles are the cosmetic rendering variants.
@@ -197,15 +228,20 @@ func run(r *evid.Run) {
 	if full {
 		maxChain = 3
 	}
-	r.Rule(fmt.Sprintf("(a) silent: per base schema in {proto2, proto3, edition 2023}: identity; every ordered pair of %d cosmetic renderings (comments, indentation, blank lines, import order, token spacing; proto2 also: the implied syntax line left out, 2 more renderings), single additive steps also on the proto2 base without syntax declarations; every chain of length <= 2 over the additive operators at their canonical site (max length here: %d; length 3 over the 12 core operators; thorough: single steps also at every site), each S_i compared with every earlier S_j; configs FILE/PACKAGE/WIRE_JSON/WIRE and their union x v1beta1/v1/v2 (quick: intermediate pairs only under the unions). "+
+	r.Rule(fmt.Sprintf("(a) silent: per base schema in {proto2, proto3, edition 2023}: identity; every ordered pair of %d cosmetic renderings (comments, indentation, blank lines, import order, token spacing; proto2 also: the implied syntax line left out, 2 more renderings), single additive steps also on the proto2 base without syntax declarations; every chain of length <= 2 over the additive operators at their canonical site (max length here: %d; length 3 over the 12 core operators; thorough: single steps also at every site), each S_i compared with every earlier S_j; configs FILE/PACKAGE/WIRE_JSON/WIRE and their union x v1beta1/v1/v2 (quick: intermediate pairs only under the v2 union, end-to-end pairs of chains of length 2 under the three unions, two different renderings under the unions + the v2 categories). "+
+		"(a, file sets) modules of up to three small files whose content shape (which of message / enum / service / extension the file declares: nothing, each alone, all; thorough two more) and package (one package; one file in another package) are enumerated independently: every pair (old, new) of file sets with old a proper non-empty subset of new, i.e. every S_i against every S_j of every history adding the files one at a time in any order; "+
+		"(a, options) a small schema under option profiles (every observed file / message / field / enum / method option set at once with pairwise different values; each file option, field option, message / enum / method option alone; explicit defaults; edition features) x proto2 / proto3 / edition 2023: identity (two builds), re-renderings (everything at once; the options of every element in reverse order) in both directions, three index-shifting additive steps; "+
+		"(a + b, import configurations) the bases with a file importing a.proto and b.proto, both images restricted (ImageWithOnlyPaths = --path; and built as module api of a two-module buf.yaml v2 workspace) so that a.proto and / or b.proto are imports, x imports included (CLI default) / excluded: identity, two re-renderings, every additive operator at its canonical site; hierarchy for one catalogue instance per operator and set of expected rules (thorough: and position; also with the file an import on one side only); "+
 		"(a, many files) thread parallelism set to 2, 3 (thorough: 4, 5 and the machine's own) in a serial section: modules of n small files (layouts own-package / packages of three, without imports / every fourth file importing the next two) for every n from one below the switch-over of bufprotosource.NewFiles to parallel chunks (8 files per unit of parallelism) through every remainder to the next multiple, and every remainder in the second round of chunks: identity (two builds), every ordered pair of 3 renderings (canonical, imports reversed = other image order, everything), every chain of length <= 2 over 4 additive operators (new file sorting first / in the middle / last, new import of a late file), each S_i against every earlier S_j; "+
-		"(b) hierarchy: every (old,new) pair of the C03 catalogue (quick: without surrounding; all versions at the top / file positions, v2 at the nested / second-file positions, field-type table at the top position under v2; thorough: every position and version, also with the index-shifting surrounding) and every ordered pair of edited schemas of a base (quick: one per distinct expected-rule set, <=28, v2; thorough: one per operator+variant, <=60, all versions); "+
+		"(b) hierarchy: every (old,new) pair of the C03 catalogue (quick: without surrounding; v2 at every position, field-type table at the top position only; v1beta1 and v1 on the first top / file position instance of every operator + set of expected rules; thorough: every position and version, also with the index-shifting surrounding) and every ordered pair of edited schemas of a base (quick: one per distinct expected-rule set, <=28, v2; thorough: one per operator+variant, <=60, all versions); "+
 		"distinct key = kind/pair id; a pair is non-trivial when old and new differ", len(styles)-2, maxChain))
 	r.Assume("'additive' is the property's list: new files, messages, enums, services, RPCs, oneofs (with new fields), reserved ranges/names, enum values and non-required fields with fresh numbers and names, new imports; extensions with fresh numbers are treated as non-required fields")
 	r.Assume("the additive operators never reuse a number or name of the base (numbers >= 700, names containing 'added')")
-	r.Assume("rule handlers run independently of each other, so intermediate chain pairs in the quick tier run under use:[FILE,PACKAGE,WIRE_JSON,WIRE] only; the end-to-end pair of every chain runs under each category separately")
+	r.Assume("rule handlers run independently of each other, so intermediate chain pairs (and, in the quick tier, the end-to-end pairs of chains of length 2 and most file-set pairs) run under use:[FILE,PACKAGE,WIRE_JSON,WIRE] only; single steps run under each category separately")
+	r.Assume("buf.yaml v1beta1 / v1 / v2 differ in which rules a category contains, not in the rule handlers: the quick tier runs the older versions of the catalogue hierarchy on one instance per operator and set of expected rules")
 
-	phases := map[string]bool{"cosmetic": true, "additive": true, "manyfiles": true, "catalogue": true, "pairs": true}
+	phases := map[string]bool{"cosmetic": true, "additive": true, "manyfiles": true, "filesets": true, "options": true, "imports": true, "catalogue": true, "pairs": true}
+	allPhases := len(phases)
 	onlyOps := map[string]bool{}
 	if v := os.Getenv("VERIF_C04_PHASES"); v != "" {
 		// debugging / mutant triage aid (run is then marked incomplete)
@@ -253,7 +289,12 @@ func run(r *evid.Run) {
 						kind = "identity"
 					}
 					pair := b.Name + ":" + styles[i].name + "->" + styles[j].name
-					x.silent(kind, styles[j].name, pair, oldR, newR, oldImg, newImg, all)
+					// quick: identities under every config, two different renderings under the unions + the v2 categories
+					cfgs := all
+					if !full && i != j {
+						cfgs = append(append([]c03.Config(nil), unions...), cats[8:]...)
+					}
+					x.silent(kind, styles[j].name, pair, oldR, newR, oldImg, newImg, cfgs)
 					if i != j {
 						r.Distinct(kind + "/" + pair)
 					}
@@ -374,14 +415,17 @@ func run(r *evid.Run) {
 					return
 				}
 				// end-to-end pair of a single step: every config; of longer chains: the v2 categories plus
-				// the unions of the older versions (thorough, length 2: every config); intermediate pairs: unions
+				// the unions of the older versions (thorough, length 2: every config; quick, length 2: the three
+				// unions - every rule of every category at once); intermediate pairs: unions
 				cfgs := all
 				switch {
 				case j > 0 && full && len(ch) == 2:
 					cfgs = unions
 				case j > 0:
 					cfgs = unions[2:]
-				case len(ch) == 3 || (len(ch) == 2 && !full):
+				case len(ch) == 2 && !full:
+					cfgs = unions
+				case len(ch) == 3:
 					cfgs = append(append([]c03.Config(nil), unions[:2]...), cats[8:]...)
 				}
 				pair := fmt.Sprintf("%s  (S%d vs S%d)", name(ch), len(ch), j)
@@ -397,6 +441,17 @@ func run(r *evid.Run) {
 	// ---------------------------------------------------------------- (a) the same three kinds over modules of many files
 	if phases["manyfiles"] && len(onlyOps) == 0 && !r.Expired() {
 		x.runManyFiles(full, cats, unions)
+	}
+
+	// ---------------------------------------------------------------- (a) file-set histories, option profiles; (a) + (b) import configurations
+	if phases["filesets"] && len(onlyOps) == 0 && !r.Expired() {
+		x.runFileSets(full, cats, unions)
+	}
+	if phases["options"] && len(onlyOps) == 0 && !r.Expired() {
+		x.runOptions(full, cats, unions)
+	}
+	if phases["imports"] && len(onlyOps) == 0 && !r.Expired() {
+		x.runImports(full, cats, unions)
 	}
 
 	// ---------------------------------------------------------------- (b) hierarchy over the C03 catalogue
@@ -415,11 +470,26 @@ func run(r *evid.Run) {
 			mode int
 		}
 		var items []item
+		// quick: buf.yaml v1beta1 and v1 differ from v2 in which rules a category contains, not in the handlers, so
+		// they run on the first top / file position instance of every operator + set of expected rules
+		olderVersions := map[*c03.Instance]bool{}
+		firstOfKey := map[string]bool{}
 		for i := range instances {
 			in := &instances[i]
 			shallow := in.Pos == "top" || in.Pos == "file"
 			if !phases["catalogue"] || (!full && !shallow && in.Op == "field-type") {
 				continue // quick: the field-type table only at the top position
+			}
+			if shallow && in.Op != "field-type" {
+				rules := map[string]bool{}
+				for _, ex := range in.Expects {
+					rules[ex.Rule] = true
+				}
+				key := in.Op + "|" + strings.Join(bufx.SortedKeys(rules), "+")
+				if !firstOfKey[key] {
+					firstOfKey[key] = true
+					olderVersions[in] = true
+				}
 			}
 			items = append(items, item{in, c03.SurroundNone})
 			if full && in.Op != "field-type" {
@@ -434,8 +504,10 @@ func run(r *evid.Run) {
 				return
 			}
 			versions := c03.Versions
-			if !full && (it.in.Op == "field-type" || !(it.in.Pos == "top" || it.in.Pos == "file")) {
+			if !full && !olderVersions[it.in] {
 				versions = []string{"v2"}
+			} else if !full {
+				x.add("hierarchy_catalogue_pairs_under_all_versions", 1)
 			}
 			pair := it.in.ID() + " [" + c03.SurroundNames[it.mode] + "]"
 			x.hierarchy("catalogue", it.in.Op, pair, p.OldR, p.NewR, p.OldImg, p.NewImg, versions)
@@ -516,19 +588,28 @@ func run(r *evid.Run) {
 	// ---------------------------------------------------------------- coverage
 	keys := bufx.SortedKeys(x.n)
 	patterns := map[string]int{}
+	impPatterns := map[string]int{}
 	for _, k := range keys {
 		if strings.HasPrefix(k, "hierarchy_pattern_") {
 			patterns[strings.TrimPrefix(k, "hierarchy_pattern_")] = x.n[k]
+		} else if strings.HasPrefix(k, "hierarchy-imports_pattern_") {
+			impPatterns[strings.TrimPrefix(k, "hierarchy-imports_pattern_")] = x.n[k]
 		} else {
 			r.Set(k, x.n[k])
 		}
 	}
 	r.Set("hierarchy_patterns_FILE_PACKAGE_WIREJSON_WIRE(c=clean,D=dirty)", patterns)
-	if r.Expired() || len(onlyOps) > 0 || len(phases) < 5 {
+	r.Set("hierarchy_imports_patterns_FILE_PACKAGE_WIREJSON_WIRE(c=clean,D=dirty)", impPatterns)
+	if r.Expired() || len(onlyOps) > 0 || len(phases) < allPhases {
 		return
 	}
 	for _, k := range []string{"silent_pairs_identity", "silent_pairs_cosmetic", "silent_pairs_additive",
 		"silent_pairs_identity-many-files", "silent_pairs_cosmetic-many-files", "silent_pairs_additive-many-files", "hierarchy_pairs_catalogue", "hierarchy_pairs_edit-pair",
+		"silent_pairs_additive-file-sets", "silent_pairs_identity-options", "silent_pairs_cosmetic-options", "silent_pairs_additive-options",
+		"silent_pairs_identity-imports", "silent_pairs_cosmetic-imports", "silent_pairs_additive-imports", "imports_additive_pairs_with_the_edit_inside_an_imported_file",
+		"hierarchy-imports_pairs_catalogue", "imports_hierarchy_pairs_with_the_edit_inside_an_imported_file",
+		"imports_silent_pairs_through_a_workspace", "imports_hierarchy_pairs_through_a_workspace",
+		"hierarchy-imports_antecedent_true_FILE", "hierarchy-imports_antecedent_true_PACKAGE", "hierarchy-imports_antecedent_true_WIRE_JSON",
 		"hierarchy_antecedent_true_FILE", "hierarchy_antecedent_true_PACKAGE", "hierarchy_antecedent_true_WIRE_JSON"} {
 		if x.n[k] == 0 {
 			r.Incomplete("clause never exercised: " + k)
@@ -543,6 +624,16 @@ func run(r *evid.Run) {
 	r.Set("hierarchy_pairs_with_mixed_verdicts", mixed)
 	if mixed == 0 {
 		r.Incomplete("no pair distinguished the categories (hierarchy clause vacuous)")
+	}
+	mixed = 0
+	for p, n := range impPatterns {
+		if strings.Contains(p, "c") && strings.Contains(p, "D") {
+			mixed += n
+		}
+	}
+	r.Set("hierarchy_imports_pairs_with_mixed_verdicts", mixed)
+	if mixed == 0 {
+		r.Incomplete("import configurations: no pair distinguished the categories (hierarchy clause vacuous)")
 	}
 }
 
